@@ -1579,6 +1579,23 @@ func lemmaUvLenRange(a []byte, o int) {}
 //@ loop 1 step haskey(termSynMap, syn) [C12]
 //@ end
 
+// the fill pass works on the tables of the thesaurus this field id belongs to (one thesaurus id, its term table and its
+// synonym-id table are handed to the per-definition closure)
+//@ func (*synonymIndexOpaque).process
+//@ thin
+//@ tags [C12]
+//@ wf requires so != nil
+//@ assert bleve_index_api.SynonymField.IterateSynonyms#1 : tid == mapget(so.FieldIDtoThesaurusID, fieldID) && (0 <= tid && tid < len(so.Thesauri) && tid < len(so.SynonymTermToID) ==> thesaurus == so.Thesauri[tid] && termSynMap == so.SynonymTermToID[tid]) [C12]
+//@ end
+
+// after the counting pass every thesaurus' key list is sorted (the FST builder needs its keys in order)
+//@ func (*synonymIndexOpaque).realloc
+//@ thin
+//@ tags [C12]
+//@ wf requires so != nil
+//@ assert sort.Strings#1 : base($x) == base(thes) && off($x) == off(thes) && len($x) == len(thes) [C12]
+//@ end
+
 // fill pass of the synonym builder: each synonym of a definition is recorded, under the id the counting pass gave it in
 // this thesaurus, for this document, in the postings of the definition's own term
 //@ func (*synonymIndexOpaque).process$1
